@@ -106,7 +106,11 @@ def _scene(rng, spec):
         if not spec["forcefree"]:
             S.add(Force(m * GRAV, b, name=f"grav{i}"))
         for j, (pl, n, r0) in enumerate(planes):
-            S.add(Sphere2Plane(pl, b, mu, r=R, e_N=e_N, e_F=0.0, name=f"c_s{i}_p{j}"))
+            # some contacts of a frictional scene are frictionless (their friction laws do not exist at all), in any position
+            mu_c = mu if (mu == 0.0 or rng.random() < 0.7 or spec.get("directed")) else 0.0
+            if mu_c != mu:
+                info["mixed_friction"] = True
+            S.add(Sphere2Plane(pl, b, mu_c, r=R, e_N=e_N, e_F=0.0 if mu_c > 0 else None, name=f"c_s{i}_p{j}"))
         spheres.append((b, R, kind))
         info["spheres"].append(kind)
     for i in range(ns):
